@@ -72,6 +72,7 @@ type Frame struct {
 	lastPartial map[*Cell]map[int]bool
 	inlineInits bool
 	mutatedParams map[*ssa.Parameter]bool
+	activeIter *loopInfo // the maps.Iterate loop whose callback is currently being executed inline (for `visited`)
 }
 
 type retInfo struct {
@@ -1062,6 +1063,11 @@ func (fr *Frame) callWrites(c *ssa.CallCommon, env map[ssa.Value]Val, fv map[*ss
 		// only what `modifies` names: map the root identifier of each modifies expr to an argument
 		for _, m := range sp.Modifies {
 			name := rootIdent(m)
+			if _, isGhost := vc.W.Ghosts[name]; isGhost && vc.ghostCells != nil {
+				if gc, ok := vc.ghostCells[name]; ok {
+					out[gc] = true
+				}
+			}
 			for i, p := range calleeParamNames(callee, sp) {
 				if p == name && i < len(c.Args) {
 					mark(c.Args[i])
@@ -1107,6 +1113,17 @@ func rootIdent(e spec.Expr) string {
 
 func calleeParamNames(f *ssa.Function, sp *spec.FuncSpec) []string {
 	var out []string
+	if sp != nil && sp.NoBody && len(sp.Params) == 0 {
+		// assumed contract without a parameter list: the receiver is `self`, parameters keep their declared names
+		if f.Signature.Recv() != nil {
+			out = append(out, "self")
+		}
+		ps := f.Signature.Params()
+		for i := 0; i < ps.Len(); i++ {
+			out = append(out, ps.At(i).Name())
+		}
+		return out
+	}
 	if sp != nil && len(sp.Params) > 0 {
 		if f.Signature.Recv() != nil {
 			out = append(out, "self")
